@@ -281,16 +281,36 @@ func (m *Mon) after(ev *os.VerifEvent) {
 
 var active sync.Mutex
 
+// cur is the monitor installed by Run (nil when none); read by Pause from the workload's goroutine.
+var cur *Mon
+
 // Run installs the monitor, runs f, removes the monitor. A panic in f propagates after removal.
 // Only one monitor can be active in a process at a time.
 func (m *Mon) Run(f func()) {
 	active.Lock()
 	m.Scope = clean(m.Scope)
+	cur = m
 	os.VerifSetHooks(&os.VerifHooks{Before: m.before, After: m.after})
 	defer func() {
 		os.VerifSetHooks(nil)
+		cur = nil
 		active.Unlock()
 	}()
+	f()
+}
+
+// Pause runs f with the interposer of the running monitor (if any) removed: for the harness's OWN file
+// handling inside a monitored workload (opening the file that plays stdin, closing it afterwards), which
+// must neither be counted nor be hit by a fault. Call it from the workload's goroutine, outside any
+// callback. Only sound for single-goroutine workloads.
+func Pause(f func()) {
+	m := cur
+	if m == nil {
+		f()
+		return
+	}
+	os.VerifSetHooks(nil)
+	defer os.VerifSetHooks(&os.VerifHooks{Before: m.before, After: m.after})
 	f()
 }
 
